@@ -1198,6 +1198,10 @@ func (sp *SatisfiedPolicy) DecodeFrom(d *Decoder) {
 func (se *StateElement) DecodeFrom(d *Decoder) {
 	se.LeafIndex = d.ReadUint64()
 	DecodeSlice(d, &se.MerkleProof)
+	if d.Err() == nil {
+		// the decoded proof is freshly allocated, whatever a reused receiver held
+		se.shared = false
+	}
 }
 
 // DecodeFrom implements types.DecoderFrom.
